@@ -151,6 +151,7 @@ def strict(v, rows):
         t2 = vlib.split_traces(cur)
         tid, start, trows = vlib.trace_of_line(t2, hwm)
         v.drift.append("trace %s: line %d not explained by Conn.tla: %s" % (tid, hwm - start, json.dumps(cur[hwm - 1])[:240]))
+        vlib.write_ndjson(os.path.join(out, "drift-%s-%d.ndjson" % (v.seed, attempt)), trows)
         keep = [(t, x) for (t, x) in keep if t != tid]
     v.cov["strict_traces_explained_by_spec"] = accepted
     v.cov["strict_traces_skipped"] = len(tr) - len(keep)
